@@ -125,11 +125,21 @@ def main():
                     if op[0] == "set":
                         config.update("jaxtyping_disable", decode(op[1])); steps.append(None); continue
                     args = good if op[1] == "good" else bad
-                    with jaxtyped("context"):
-                        # an enclosing context that binds a=9: a transparent call must see it from a manual check
-                        isinstance(np.zeros((9,), "float32"), Float[A, "a"])
-                        c = compare(wrapped, plain, args, calls)
+                    def do_call(box):
+                        with jaxtyped("context"):
+                            # an enclosing context that binds a=9: a transparent call must see it from a manual check
+                            isinstance(np.zeros((9,), "float32"), Float[A, "a"])
+                            box.append(compare(wrapped, plain, args, calls))
+                    box = []
+                    if len(op) > 2 and op[2] == "thread":
+                        # the call is made from ANOTHER thread, started after the last toggle: the switch is process-wide
+                        import threading
+                        th = threading.Thread(target=do_call, args=(box,)); th.start(); th.join()
+                    else:
+                        do_call(box)
+                    c = box[0] if box else {"wrapped": ["thread-died"], "plain": ["?"], "same": False, "body_runs_wrapped": 0, "body_runs_plain": 0, "inner_wrapped": [], "inner_plain": []}
                     c["flag"] = bool(config.jaxtyping_disable)
+                    c["thread"] = len(op) > 2
                     steps.append(c)
                 res.append({"kind": kname, "steps": steps})
         config.update("jaxtyping_disable", False)
